@@ -226,6 +226,7 @@ var (
 // and the header).
 //@ func (*ImmuStore).ReadTxEntry
 //@   ensures nonnil: r2 == nil ==> r0 != nil && r1 != nil
+//@   ensures c06_committed: r2 == nil ==> txID <= s.committedTxID
 //@   assigns internal
 
 // ASSUMED (attribute map and bytes.Buffer are not modelled): at most maxKVMetadataLen bytes (1 + 1+8 + 1), no
